@@ -279,10 +279,18 @@ class Body:
         applied to the result of the call in block call_bb, or None."""
         res = self.call_result_local(call_bb)
         der = self.derived_from([res])
+        cands = []
         for i, t in self.calls():
             c = self.callee(t) or ""
             if c.endswith("core::ops::try_trait::Try>::branch") or c.endswith("Try::branch"):
                 if any(l in der for l in self.arg_locals(i)) and self.node_dominates(call_bb, i):
+                    cands.append((i, t))
+        # the `?` applied to this very result first (block numbering says nothing about order once bodies have been inlined),
+        # then the one that comes first on every path (it dominates the other candidates)
+        cands.sort(key=lambda it: (res not in self.arg_locals(it[0]), sum(1 for j, _ in cands if j != it[0] and self.node_dominates(j, it[0]))))
+        for i, t in cands:
+            if True:
+                if True:
                     # the switch on the discriminant of the ControlFlow result
                     nxt = t.get("t")
                     while nxt is not None and self.bbs[nxt]["t"]["k"] == "Goto":
